@@ -218,14 +218,42 @@ def ctrl_depth(c, block):
     (a dominating switch some successor of which cannot reach `block`)."""
     n = 0
     doms = c.dominators().get(block, set())
+    after = c.reachable_from(block)
     for d in doms:
         if d == block:
             continue
         t = c.blocks[d]["term"]
         if t["k"] != "switch":
             continue
+        if d in after:
+            continue          # loop control (the test is re-reached from the site): `while`/`for` headers are not validation guards, and the same body
+                              # written as an iterator closure would not have them
         for s in c.succ[d]:
             if block not in c.reachable_from(s):
                 n += 1
                 break
     return n
+
+
+def closure_creation_depth(P, name):
+    """Control depth at which a closure body is created in its parent (summed through nested closures): the closure's sites inherit those guards."""
+    total = 0
+    seen = set()
+    while name in P.cfgs and name not in seen:
+        seen.add(name)
+        rec = P.cfgs[name].rec
+        parent = rec.get("parent")
+        if not parent or parent == name or parent not in P.cfgs:
+            break
+        pc = P.cfgs[parent]
+        tag = ":%d:" % rec.get("line", -1)
+        blk = None
+        for i, b in enumerate(pc.blocks):
+            for st in b["stmts"]:
+                rv = st.get("rv", "")
+                if rv.startswith("{closure@") and tag in rv.split("}")[0]:
+                    blk = i
+        if blk is not None:
+            total += ctrl_depth(pc, blk)
+        name = parent
+    return total
